@@ -20,6 +20,7 @@ import sys, json, re
 from decimal import Decimal
 from datetime import date
 
+import copy
 import jsonschema
 from jsonschema import Draft4Validator, FormatChecker
 from jsonschema.validators import extend
@@ -176,6 +177,12 @@ def is_integer(checker, inst):
 
 type_checker = Draft4Validator.TYPE_CHECKER.redefine("number", is_number).redefine("integer", is_integer)
 Validator = extend(Draft4Validator, type_checker=type_checker)
+# OpenAPI 3.0's own description of the Schema Object (schemas/v3.0/schema.json) declares `enum` with
+# "uniqueItems": false, and JSON Schema Wright Draft 00, which OpenAPI 3.0 builds on, says the elements SHOULD be
+# unique: `enum: [1.0, 1]` is well formed there, while the Draft 4 meta-schema demands unique items.
+_meta = copy.deepcopy(dict(Draft4Validator.META_SCHEMA))
+_meta["properties"]["enum"].pop("uniqueItems", None)
+Validator.META_SCHEMA = _meta
 
 
 def loads(text):
